@@ -68,7 +68,7 @@ func c04Case(root *vw.Rng, ci int, tr *vw.Trace) {
 	id := fmt.Sprint(ci)
 	r := root.Fork(uint64(ci))
 	repl := r.PickInt(2, 2, 3, 3, 3)
-	nTS := 2*repl - 1 + r.PickInt(0, 0, 1)
+	nTS := 2*repl - 1 + r.PickInt(0, 1, 1)
 	d := vc.NewDriver(r, nTS, []bool{r.Chance(4, 5), r.Chance(1, 2)}, id)
 	defer d.Cl.Close()
 	c := vc.NewC04(d)
@@ -300,6 +300,47 @@ func c04DirectedAbandon(root *vw.Rng, tr *vw.Trace, id string) {
 	d.WriteTrace(tr)
 }
 
+// dE: a replica is lost, the repair lands on a FRESH spare server (never used at a create); leadership changes;
+// the spare is lost for good before it has sent the new leader a heartbeat.  The new leader learns of that server
+// only through the durable known-tractserver set (updateTsmonLoop), must count it as down and repair again.
+func c04DirectedLostTarget(root *vw.Rng, tr *vw.Trace, id string) {
+	d, c, hosts := c04Setup(root, 9005, id, 2, 4)
+	defer d.Cl.Close()
+	defer c.Close()
+	if len(hosts) != 2 {
+		return
+	}
+	c.Delete(hosts[0], 0, 0)
+	c.Check(hosts[0])
+	c.Beat(hosts[0])
+	c.Detect()
+	c.Pop()
+	c.Quiesce()
+	c.Detect()
+	st := d.Cl.D.Tract(d.TractID(0, 0))
+	target := 0
+	for _, h := range st.Hosts {
+		if int(h) != hosts[0] && int(h) != hosts[1] {
+			target = int(h)
+		}
+	}
+	if target == 0 {
+		return
+	}
+	d.LeaderChange()
+	c.Poll()
+	c.Lose(target) // before any heartbeat reaches the new leader
+	n := c.Heal(6)
+	c.CheckRedundancy()
+	c.CheckAllReplicas()
+	c04FinalReads(d, c)
+	c04Report(d, id)
+	c04Stats(d, c)
+	vw.Stat("directed", 1)
+	vw.Stat(fmt.Sprintf("heal.rounds.%d", n), 1)
+	d.WriteTrace(tr)
+}
+
 func TestVerifC04(t *testing.T) {
 	if !vw.Enabled() {
 		t.Skip("verification harness: run through /verif/bin/check")
@@ -327,6 +368,9 @@ func TestVerifC04(t *testing.T) {
 	}
 	if !chunk && vw.CaseSelected("dD") {
 		c04DirectedAbandon(root, tr, "dD")
+	}
+	if !chunk && vw.CaseSelected("dE") {
+		c04DirectedLostTarget(root, tr, "dE")
 	}
 	n := vw.Scale(30, 400)
 	lo, hi := 0, n
